@@ -1,4 +1,4 @@
-SPECIFICATION MSpec
+SPECIFICATION MCSpec
 CONSTANTS Base = 4
           Mode = "release"
           MW = 4
@@ -6,7 +6,6 @@ CONSTANTS Base = 4
           Regs = {"r0", "r1"}
           Pool <- MCPool
           Depth = 3
-CONSTRAINT Bounded
 INVARIANTS TypeOK RingHom RoundTrips
 PROPERTY Unchanged
 CHECK_DEADLOCK FALSE
